@@ -1,11 +1,14 @@
 package updog
 
+import "sync"
+
 // C02 — group-by = SQL GROUP BY with COUNT(*) > 0 in sorted order.
 // C08 — executing a query does not change the Query.
 
 func init() {
 	verifHarnesses["HarnessC02GroupBy"] = HarnessC02GroupBy
 	verifHarnesses["HarnessC08Reuse"] = HarnessC08Reuse
+	verifHarnesses["HarnessC08Copies"] = HarnessC08Copies
 }
 
 // schema: a in {a0,a1}, b in {b0,b1,b2}, r in {r0}; r=r0 selects an arbitrary row set.
@@ -172,7 +175,7 @@ func HarnessC08Reuse() {
 	d2.build()
 	alphabet := []string{"a", "b"}
 	var list []string
-	n := verifChoice("listlen", 3)
+	n := verifChoice("listlen", 3+verifTier())
 	for i := 0; i < n; i++ {
 		list = append(list, alphabet[verifChoice("col", len(alphabet))])
 	}
@@ -295,5 +298,59 @@ func HarnessC08Reuse() {
 	idx1.Close()
 	idx2.Close()
 	idx3.Close()
+	verifReach("end")
+}
+
+// HarnessC08Copies: a Query value that has been executed is copied (by value), and the
+// original and the copy — two Query values as far as the caller can tell — are executed at
+// the same time by two goroutines on two indexes whose grouped column holds different values.
+// No data race between the two executions, and each returns what a fresh query returns.
+func HarnessC08Copies() {
+	d1 := verifNewDataN("c08d1.updog", []string{"a", "r"}, [][]string{{"a1", "a0"}, {"r0"}}, 64)
+	d1.build()
+	d2 := &verifData{path: verifTempPath("c08d2.updog"), n: 6, cols: []string{"a", "r"},
+		vals: [][]string{{"a7", "a6"}, {"r0"}}, sets: [][]uint64{{0x05, 0x32}, {0x3e}}}
+	d2.build()
+	idx1 := d1.open(verifBool("preload"), nil)
+	idx2 := d2.open(false, nil)
+	list := []string{"a"}
+	if verifBool("two-columns") {
+		list = []string{"a", "r"}
+	}
+	q := &Query{Expr: &ExprEqual{Column: "r", Value: "r0"}, GroupBy: list}
+	if verifBool("executed-before-copying") {
+		if _, err := idx1.Execute(q); err != nil {
+			panic(err)
+		}
+	}
+	derived := *q // a second Query value
+	r1, _ := d1.set("r", "r0")
+	r2, _ := d2.set("r", "r0")
+	var res1, res2 *Result
+	var err1, err2 error
+	var wg sync.WaitGroup
+	verifPreemptions(1 + verifTier())
+	verifSchedule(true)
+	verifLockset(true)
+	wg.Add(2)
+	go func() {
+		defer wg.Done()
+		res1, err1 = idx1.Execute(q)
+	}()
+	go func() {
+		defer wg.Done()
+		res2, err2 = idx2.Execute(&derived)
+	}()
+	wg.Wait()
+	verifLockset(false)
+	verifSchedule(false)
+	verifRaceFree("C08: two Query values (one a copy of the other) executed at the same time share state")
+	verifAssert(err1 == nil && err2 == nil, "C08: executing a Query value and a copy of it at the same time returned an error")
+	if err1 == nil && err2 == nil {
+		verifCheckGroups(d1, list, r1, res1, "C08: a Query value executed while a copy of it runs elsewhere differs from a fresh query")
+		verifCheckGroups(d2, list, r2, res2, "C08: a copy of a Query value executed while the original runs elsewhere differs from a fresh query")
+	}
+	idx1.Close()
+	idx2.Close()
 	verifReach("end")
 }
